@@ -31,6 +31,8 @@ type S3AdminServer struct {
 	router  *S3AdminRouter
 	port    string
 	cert    *tls.Certificate
+	// readonly: the gateway was started read-only
+	readonly bool
 }
 
 func NewAdminServer(app *fiber.App, be backend.Backend, root middlewares.RootUserConfig, port, region string, iam auth.IAMService, l s3log.AuditLogger, opts ...AdminOpt) *S3AdminServer {
@@ -56,7 +58,7 @@ func NewAdminServer(app *fiber.App, be backend.Backend, root middlewares.RootUse
 	// Admin role checker
 	app.Use(middlewares.IsAdmin(l))
 
-	server.router.Init(app, be, iam, l)
+	server.router.Init(app, be, iam, l, server.readonly)
 
 	return server
 }
@@ -65,6 +67,11 @@ type AdminOpt func(s *S3AdminServer)
 
 func WithAdminSrvTLS(cert tls.Certificate) AdminOpt {
 	return func(s *S3AdminServer) { s.cert = &cert }
+}
+
+// WithAdminReadOnly makes the admin server refuse changes to bucket data
+func WithAdminReadOnly() AdminOpt {
+	return func(s *S3AdminServer) { s.readonly = true }
 }
 
 func (sa *S3AdminServer) Serve() (err error) {
